@@ -840,19 +840,72 @@ func ruleTerminalPropagation() check.Rule {
 					}
 					// every path from the entry of the slot to its exit passes an onward node
 					declName := model.DeclName(topDecl(m.EnclosingFuncs(s.Pkg, slot.Lit)))
-					readsState := func(cond ast.Node) bool {
+					sinfo := s.Pkg.TypesInfo
+					outside := func(v *types.Var) bool { return !(slot.Lit.Pos() <= v.Pos() && v.Pos() <= slot.Lit.End()) }
+					// shared state written by this callback before it decides (a completion counter incremented, a
+					// finished-flag set): the "last one out completes" protocol. The decision that follows reads that state.
+					var stateWrites []token.Pos
+					ast.Inspect(slot.Lit.Body, func(x ast.Node) bool {
+						if l, ok := x.(*ast.FuncLit); ok && l != slot.Lit {
+							return false
+						}
+						switch y := x.(type) {
+						case *ast.AssignStmt:
+							for _, l := range y.Lhs {
+								if id, _ := rootIdent(l); id != nil {
+									if v, ok := objOf(sinfo, id).(*types.Var); ok && !v.IsField() && outside(v) {
+										stateWrites = append(stateWrites, y.Pos())
+									}
+								}
+							}
+						case *ast.IncDecStmt:
+							if id, _ := rootIdent(y.X); id != nil {
+								if v, ok := objOf(sinfo, id).(*types.Var); ok && !v.IsField() && outside(v) {
+									stateWrites = append(stateWrites, y.Pos())
+								}
+							}
+						case *ast.CallExpr:
+							if cl := model.Callee(sinfo, y); cl != nil && cl.Pkg() != nil && cl.Pkg().Path() == "sync/atomic" && (strings.HasPrefix(cl.Name(), "Add") || strings.HasPrefix(cl.Name(), "Store") || strings.HasPrefix(cl.Name(), "Swap") || strings.HasPrefix(cl.Name(), "CompareAndSwap")) {
+								stateWrites = append(stateWrites, y.Pos())
+							}
+						}
+						return true
+					})
+					var mentionsState func(e ast.Node, depth int, listedOnly bool) bool
+					mentionsState = func(e ast.Node, depth int, listedOnly bool) bool {
 						found := false
-						ast.Inspect(cond, func(x ast.Node) bool {
+						ast.Inspect(e, func(x ast.Node) bool {
 							if id, ok := x.(*ast.Ident); ok {
-								if v, ok := objOf(s.Pkg.TypesInfo, id).(*types.Var); ok && !v.IsField() {
-									if _, listed := endedElsewhere[declName+"/"+v.Name()]; listed && !(slot.Lit.Pos() <= v.Pos() && v.Pos() <= slot.Lit.End()) {
+								if v, ok := objOf(sinfo, id).(*types.Var); ok && !v.IsField() {
+									_, listed := endedElsewhere[declName+"/"+v.Name()]
+									if outside(v) && (listed || !listedOnly) {
 										found = true
+									}
+									// a local computed from the state (drained := len(*values) == 0)
+									if !outside(v) && depth < 3 {
+										for _, d := range m.Defs[v] {
+											if d.Expr != nil && mentionsState(d.Expr, depth+1, listedOnly) {
+												found = true
+											}
+										}
 									}
 								}
 							}
 							return !found
 						})
 						return found
+					}
+					readsState := func(cond ast.Node) bool {
+						if mentionsState(cond, 0, true) {
+							return true
+						}
+						// counter protocol: the callback has published its own completion before this decision
+						for _, w := range stateWrites {
+							if w < cond.Pos() && mentionsState(cond, 0, false) {
+								return true
+							}
+						}
+						return false
 					}
 					usedState := false
 					readsStateRec := func(cond ast.Node) bool {
